@@ -4,6 +4,7 @@ import Driver.C14
 import Driver.C09
 import Driver.C07
 import Driver.C11
+import Driver.C13
 /-! `ccdriver`: one operation per input line (`<module> <op> args…`), one result line out:
 `model<TAB>spec`. Stateless modules are dispatched directly; stateful modules keep their state
 in `St`. -/
@@ -14,6 +15,7 @@ structure St where
   c09 : C09.State := {}
   c07 : C07.State := {}
   c11 : C11.State := {}
+  c13 : C13.State := {}
 
 def step (st : St) (line : String) : St × String :=
   match (line.trimAscii.toString.splitOn " ").filter (· ≠ "") with
@@ -23,6 +25,7 @@ def step (st : St) (line : String) : St × String :=
   | "c09" :: rest => let (s, o) := C09.step st.c09 rest; ({ st with c09 := s }, o)
   | "c07" :: rest => let (s, o) := C07.step st.c07 rest; ({ st with c07 := s }, o)
   | "c11" :: rest => let (s, o) := C11.step st.c11 rest; ({ st with c11 := s }, o)
+  | "c13" :: rest => let (s, o) := C13.step st.c13 rest; ({ st with c13 := s }, o)
   | _ => (st, "bad-op\tn/a")
 
 partial def loop (h : IO.FS.Stream) (out : IO.FS.Stream) (st : St) : IO Unit := do
